@@ -19,7 +19,8 @@ RULE = (
     "StoryNotFound/ItemNotFound/DuplicateStory warning per missing/duplicate element) AND the "
     "resulting state is the model's with every remaining element applied; a step that warned is run again with warnings escalated to errors and must then raise.  Non-trivial = >= 2 named "
     "elements of which a proper non-empty subset is unresolvable/duplicate, or a multi-ID "
-    "roElementAction DELETE/MOVE list; distinct = distinct (state text, message text) digests.")
+    "roElementAction DELETE/MOVE list; distinct = distinct (state text, message text) digests."
+    ' Round 11: history steps re-using an earlier messageID (a different message must not be taken for a re-send); returning-element histories.')
 ASSUMPTIONS = [
     'repeated IDs in a delete list: every occurrence of an ID that is not in the running order needs its own '
     'warning; a repeated occurrence of an ID that was there may or may not be reported.  Repeated / '
